@@ -57,3 +57,22 @@ verus! {
 // lossy UTF-8 view of bytes: never fails (text unspecified)
 pub assume_specification<'a> [String::from_utf8_lossy] (v: &'a [u8]) -> std::borrow::Cow<'a, str>;
 }
+pub mod vsync {
+    use vstd::prelude::*;
+    verus! {
+    // A function-local `static` (rule T-STATIC) holds whatever earlier calls have left in it: its content at entry is unknown.
+    #[verifier::external_body]
+    pub fn unknown<T>() -> T { unimplemented!() }
+    // std::sync::OnceLock<T>: empty, or holding the value of the first initialisation
+    pub struct OnceLock<T> { pub v: Option<T> }
+    impl<T> OnceLock<T> {
+        #[verifier::external_body]
+        pub fn get(&self) -> (r: Option<&T>)
+            ensures match r { Some(x) => self.v == Some(*x), None => self.v is None } { unimplemented!() }
+        #[verifier::external_body]
+        pub fn get_or_init<F: FnOnce() -> T>(&self, f: F) -> (r: &T)
+            requires f.requires(())
+            ensures self.v matches Some(x) ==> *r == x, self.v is None ==> f.ensures((), *r) { unimplemented!() }
+    }
+    }
+}
